@@ -39,6 +39,13 @@ def build(rng, tier):
         TAILS = ['?next=/', '?return_to=/a/b/', '#/', '?', '#', '?#', '?x=.html', '#x.html', '?x=/index.html', '?/', '#sec/', '?a=1&b=2/', '?x=1#/', '/?x=/', '/#/']
         for base in ['/' + d for d in dirs] + ['/' + n for n in names[:6]] + ['/' + n[:-5] for n in names if n.endswith('.html')][:4] + ['/']:
             for tl in TAILS: add(base + tl)
+        # links to files with RELATIVE targets, living below the root's top level; a namesake of the target sits in the root
+        # (a resolution against the wrong directory serves the namesake or nothing)
+        tree.file(tree.cwd + b'/sub/inner/data.txt', b'the data inside sub/inner').file(tree.cwd + b'/sub/data.txt', b'the data inside sub')
+        tree.file(tree.cwd + b'/data.txt', b'NAMESAKE in the root').file(tree.cwd + b'/inner/data.txt', b'NAMESAKE in root/inner')
+        tree.link(tree.cwd + b'/sub/alias.txt', b'data.txt').link(tree.cwd + b'/sub/down.txt', b'inner/data.txt')
+        tree.link(tree.cwd + b'/sub/inner/up.txt', b'../data.txt').link(tree.cwd + b'/sub/inner/upup.txt', b'../../data.txt').link(tree.cwd + b'/top.lnk', b'sub/inner/data.txt')
+        for t in ['/sub/alias.txt', '/sub/down.txt', '/sub/inner/up.txt', '/sub/inner/upup.txt', '/top.lnk', '/sub/alias.txt?x=1', '/sub//alias.txt']: add(t, 'proc'); add(t)
         if ti % 4 == 1:
             tree.file(tree.cwd + b'/docs/x.txt', b'x').file(tree.cwd + b'/docs.html', b'<d>').file(tree.cwd + b'/old.html.html', b'<o>')
             tree.file(tree.cwd + b'/idx/index.html/inner.txt', b'i').file(tree.cwd + b'/ghost.html/inner.txt', b'g')
@@ -79,7 +86,7 @@ def judge(res, results):
             if cl != [str(len(content))]:
                 res.fail('wrong-content-length', c.line[:300], str(cl), None, f'C02: Content-Length {cl} for a file of {len(content)} bytes')
             ext = K.ext_of(rel)
-            if ext in K.EXT_TYPES:
+            if ext in K.EXT_TYPES and variant != 'symlink':      # (whether a link is typed by its own name or by its target's is not stated)
                 ct = H.get(resp['headers'], 'Content-Type')
                 if ct != [K.EXT_TYPES[ext]]:
                     res.fail('wrong-media-type', c.line[:300], str(ct), None, f'C02: {rel!r} labelled {ct}, expected {K.EXT_TYPES[ext]}')
